@@ -7,7 +7,7 @@ from .common import (MAXSIZE, Model, ModelCompleteError, Rec, RefSched, SystemNo
                      spec_defaults)
 
 PROPERTY = "C06"
-QUICK_RUNS = 30000
+QUICK_RUNS = 20000
 CHUNK = 400
 RULE = ("1-8 recording systems (mixed priorities/windows); completion point = (system, timestep) at any position of "
         "the order or 'from outside after step t'; then a tail of 3-15 requests from {execute(), execute(n), "
